@@ -30,7 +30,7 @@ SYS_PROPS = ['C01', 'C02', 'C03', 'C06', 'C08', 'C10', 'C12', 'C15', 'C19', 'C20
 
 # exhaustive configurations of S: (cfg file, properties whose design-level statement it checks)
 MC_CFGS = {
-    'quick': ['BertE.q.cfg', 'BertE.nq.cfg', 'BertE.sk.cfg', 'BertE.qs.cfg', 'BertE.fq.cfg', 'BertE.qh.cfg', 'BertE.r.cfg', 'BertE.adm.cfg'],
+    'quick': ['BertE.q.cfg', 'BertE.nq.cfg', 'BertE.sk.cfg', 'BertE.qs.cfg', 'BertE.fq.cfg', 'BertE.qh.cfg', 'BertE.r.cfg', 'BertE.adm.cfg', 'BertE.ap.cfg'],
     'thorough': ['BertE.q.t.cfg', 'BertE.nq.t.cfg', 'BertE.sk.t.cfg', 'BertE.qs.t.cfg', 'BertE.q3.t.cfg', 'BertE.qh.t.cfg', 'BertE.r.t.cfg', 'BertE.r2.cfg', 'BertE.adm.t.cfg', 'BertE.fa.cfg', 'BertE.o.cfg',
                  'BertE.f.cfg', 'BertE.fp.cfg', 'BertE.fr.cfg', 'BertE.wnq.cfg', 'BertE.wq.cfg'],
 }
